@@ -71,7 +71,8 @@ def inject_cond(g, spec):
             out.append(("malformed path item", {k: list(v) + [{"path": [{"type": "map_valu"}]}]}))
             out.append(("malformed path item", {k: [{"path": 5}] + list(v)}))
             out.append(("malformed path item", {k: list(v) + [{"path": [None]}]}))
-        if isinstance(v, dict) and v and toks[-1].lower() in ("in_range", "not_in_range", "equal_to_approx", "items_contain"):
+        if isinstance(v, dict) and v and toks[-1].lower() in ("in_range", "not_in_range", "equal_to_approx", "items_contain") \
+                and not any(isinstance(x, str) and "\\path" in x for x in v):     # an escaped mapping is a literal: its values are not inspected
             kk = next(iter(v))
             out.append(("malformed path value", {k: dict(v, **{kk: {"path": [{"type": "list_valu"}]}})}))
         out.append(("several keys", dict(spec, **{("value.truthy" if "value.truthy" not in spec else "value.falsy"): None})))
